@@ -72,7 +72,7 @@ def cases(tier, seed, shard, nshards):
                         yield {"kind": "histories", "n": n, "dag": di, "first": first, "second": second, "depth": 6}
                     idx += 1
     for i in range(N_SIM[tier]):
-        yield _sim.random_sim_case(rng, small=True, mem_levels=[0.05, 0.15, 0.3, 0.6])
+        yield _sim.random_sim_case(rng, small=True, mem_levels=[0.05, 0.15, 0.3, 0.6], algos=_sim.ALGOS_PLUS)
     for i in range(N_MIX[tier]):
         yield _exec.mix_case(rng, i, steps=rng.choice([40, 80]), p_bad=rng.choice([0.03, 0.06]),
                              bad_kinds=["reassign", "reassign", "suspend-mid"], p_suspend=rng.choice([0.3, 0.8]),
